@@ -32,9 +32,18 @@ def steady_cases(draw, tier="quick"):
          "obs_frac": draw(st.lists(st.floats(0.02, 0.98), min_size=1, max_size=5)),
          "obs_idx": draw(st.lists(st.integers(0, n - 1), min_size=1, max_size=n, unique=True)),
          "obs_unsorted": draw(st.booleans()),
+         # a sensor listed twice (steady-state problems, unsorted listing): the observation has one entry per listed node
+         "obs_dup": draw(st.sampled_from([False, False, True])),
+         "grid_affine": draw(st.sampled_from(["plain", "plain", "tiny", "far"])),
          "omap": draw(st.sampled_from(["none", "square", "first2", "affine"])),
          "direction": draw(gen.vec(12))}
     return c
+
+
+def grid_of(c):
+    """the solution grid: integer node positions, optionally in other units (x 1e-7) or far from the origin (+ 5e5)"""
+    sc, org = {"plain": (1.0, 0.0), "tiny": (1e-7, 0.0), "far": (1.0, 5.0e5)}[c.get("grid_affine", "plain")]
+    return org + sc * np.array(c["grid"], dtype=float)
 
 
 def steady_parts(c):
@@ -78,6 +87,13 @@ def make_solver(name):
     return user, {"scale": 1.0}
 
 
+def obs_index_list(c):
+    idx = list(c["obs_idx"]) if c.get("obs_unsorted") else sorted(c["obs_idx"])
+    if c.get("obs_unsorted") and c.get("obs_dup"):
+        idx = idx + [idx[0]]
+    return idx
+
+
 def obs_grid(c, grid):
     if c["obs"] == "none":
         return None
@@ -85,7 +101,7 @@ def obs_grid(c, grid):
         return grid.copy()
     if c["obs"] == "subset":
         if c.get("obs_unsorted"):
-            return grid[list(c["obs_idx"])]      # observation nodes listed in the user's own order (steady-state problems only)
+            return grid[obs_index_list(c)]      # observation nodes listed in the user's own order (steady-state problems only)
         return grid[sorted(c["obs_idx"])]
     if c["obs"] == "samelen":
         # same number of nodes, first and last coincide with the solution grid, interior nodes moved half a cell
@@ -101,7 +117,7 @@ def run_steady(c, rec):
     n = c["n"]
     Aof, bof, _, _ = steady_parts(c)
     th = A(c["theta"])
-    grid = np.array(c["grid"], dtype=float)
+    grid = grid_of(c)
     gobs = obs_grid(c, grid)
     tags = {"pde": "steady", "solver": c["solver"], "obs": c["obs"], "omap": c["omap"]}
     if rec.classify(tags, c["obs"] in ("subset", "offnode", "samelen") or c["omap"] != "none"):
@@ -138,7 +154,7 @@ def run_steady(c, rec):
     else:
         want = interp1d(grid, u, kind="quadratic")(gobs)
         if c["obs"] == "subset":  # exact at coinciding nodes, in the order the observation nodes are listed
-            idxs = list(c["obs_idx"]) if c.get("obs_unsorted") else sorted(c["obs_idx"])
+            idxs = obs_index_list(c)
             require(close(want, u[idxs], 1e-9), "reference interpolant not exact at nodes (harness)")
             want = u[idxs]
     if OMAPS[c["omap"]] is not None:
@@ -192,6 +208,9 @@ def time_cases(draw, tier="quick"):
          "grid": sorted(set(draw(st.lists(st.integers(0, 40), min_size=n, max_size=n, unique=True)))),
          "int_ic": draw(st.sampled_from([False, False, True])), "second_parameter": draw(st.booleans()),
          "ramp_source": draw(st.sampled_from([False, False, True])),
+         # nothing happens at first: zero initial state and a source that is switched on at a later time level
+         "late_source": draw(st.sampled_from([False, False, False, True])),
+         "grid_affine": draw(st.sampled_from(["plain", "plain", "tiny", "far"])),
          "obs": draw(st.sampled_from(["equal", "none", "subset", "offnode", "samelen"])),
          "obs_frac": draw(st.lists(st.floats(0.02, 0.98), min_size=1, max_size=5)),
          "obs_idx": draw(st.lists(st.integers(0, n - 1), min_size=1, max_size=n, unique=True)),
@@ -210,7 +229,11 @@ def time_parts(c):
     def Aof(th, t):
         return L0 + t * L1 - sum(abs(ti) * d for ti, d in zip(th, Dk))
 
+    t_switch = c["t0"] + float(np.sum(c["dts"][: max(1, len(c["dts"]) // 2)]))
+
     def fof(th, t):
+        if c.get("late_source"):
+            return (f0 + t * f1 + F @ th) if t > t_switch + 1e-12 else np.zeros(n)
         if c.get("ramp_source"):
             return (t - c["t0"]) * (f1 + F @ th)     # a source that is exactly zero at the first time level and switches on afterwards
         return f0 + t * f1 + F @ th
@@ -218,6 +241,8 @@ def time_parts(c):
     def ic(th, t=0.0):
         # the form returns (operator, source, initial condition) for a time t; the initial condition of the run is the one
         # the form gives at the first time level
+        if c.get("late_source"):
+            return np.zeros(n)
         if c.get("int_ic"):
             return np.round(3 * u0).astype(int)      # an integer-typed initial profile (step heights, counts)
         return (u0 + C @ th) * (1.0 + 0.5 * t)
@@ -232,7 +257,7 @@ def run_time(c, rec):
     th = A(c["theta"])
     times = c["t0"] + np.concatenate([[0.0], np.cumsum(c["dts"])])
     nt = len(times)
-    grid = np.array(c["grid"], dtype=float)
+    grid = grid_of(c)
     gobs = obs_grid(c, grid)
     uniform = len(set(c["dts"])) == 1
     if c["time_obs"] == "final":
@@ -324,7 +349,7 @@ def run_model(c, rec):
     n, k = c["n"], c["k"]
     Aof, bof, Ak, B = steady_parts(c)
     th = A(c["theta"])
-    grid = np.array(c["grid"], dtype=float)
+    grid = grid_of(c)
     gobs = obs_grid(c, grid) if c["obs"] != "offnode" or n >= 3 else None
     omap = c["omap"] if c["omap"] in ("none", "affine") else "none"
     variant = ["jacobian", "gradient", "none"][c["direction"][0] > 1 and 1 or (c["direction"][0] < -1 and 2 or 0)]
